@@ -16,6 +16,9 @@ CHECK = dict(
             dict(name="sockets", run="^TestVerifC06Sockets$", quick=400, thorough=4000, shards_thorough=4),
             # one P: sync.Pool then hands a buffer that one goroutine put straight to the next taker
             dict(name="sockets-1p", run="^TestVerifC06Sockets$", quick=250, thorough=1800, shards_thorough=3, env={"GOMAXPROCS": "1"}),
+            # pools after error paths: concurrent clients after aborted bodies and over-full pipelines
+            dict(name="pools", run="^TestVerifC06Pools$", quick=60, thorough=1200, shards_thorough=4),
+            dict(name="pools-1p", run="^TestVerifC06Pools$", quick=60, thorough=900, shards_thorough=3, env={"GOMAXPROCS": "1"}),
             dict(name="quic-fuzz", run="^FuzzVerifC06QUIC$", quick=0, thorough=0, tier_only="thorough",
                  fuzz="^FuzzVerifC06QUIC$", fuzztime="90s", timeout_thorough=600, env={"GOMAXPROCS": "4"}),
         ]),
